@@ -26,12 +26,12 @@
 From Coq Require Import ZArith List Bool Lia Arith.
 From CM Require Import Lib.Str Gen.Consts Renewal.Model Renewal.Proofs Renewal.F64 Renewal.F64Proofs System.RenewMaintain.
 From CM Require Handshake.Model Handshake.Proofs.
-From CM Require System.HandshakeCompose.
+From CM Require System.HandshakeComposeBase.
 Import ListNotations.
 
 Module H := CM.Handshake.Model.
 Module HP := CM.Handshake.Proofs.
-Module HC := CM.System.HandshakeCompose.
+Module HC := CM.System.HandshakeComposeBase.
 
 Ltac inv H := inversion H; subst; clear H.
 
